@@ -102,7 +102,7 @@ struct Prog {
     std::vector<Op> ops;
     std::string profile; // informational
     int strict = 0;      // 1: known-finding exclusions off (used by the known-finding probes)
-    int cyc = 0;         // 1: callback scripts repeat cyclically (invocation k runs script k mod n); 0: only the first n invocations are scripted
+    int cyc = 0;         // 1: callback scripts repeat cyclically for the first 24 invocations (invocation k runs script k mod n); 0: only the first n invocations are scripted
 };
 
 inline void op_text(std::ostringstream &o, const char *kw, const Op &op) {
